@@ -78,6 +78,12 @@ type AssertAt struct {
 	Spec *SpecExpr
 }
 
+type RawAxiom struct {
+	Tags []string
+	Text string
+	Src  string
+}
+
 type SpecFn struct {
 	Name string
 	Args []string
@@ -97,6 +103,7 @@ type ContractDB struct {
 	w          *World
 	byFunc     map[string]*Contract
 	byIface    map[string]*Contract
+	rawAxioms  []RawAxiom
 	byFuncType map[string]*Contract
 	ambiguous  map[string]bool
 	specFns    map[string]*SpecFn
@@ -519,6 +526,10 @@ func (db *ContractDB) parseLines(lines []srcLine, pkg *types.Package, trusted bo
 			} else {
 				db.ambiguous[p.Name] = true
 			}
+		case "rawaxiom":
+			// rawaxiom[group] <SMT-LIB assertion body>: a theory axiom given directly in SMT-LIB (array sorts)
+			cur = nil
+			db.rawAxioms = append(db.rawAxioms, RawAxiom{Tags: tags, Text: rest, Src: src})
 		case "axiom":
 			cur = nil
 			se, err := parseSpec(rest, tags, src)
@@ -1438,6 +1449,107 @@ func (env *specEnv) call(x *ast.CallExpr) (T, error) {
 			return T{}, fmt.Errorf("%s of %s", name, a.Sort)
 		}
 		return T{"(select " + e.H(env.cur, "GV_"+name, "(Array Int Int)") + " " + ref + ")", "Int", nil}, nil
+	case "lam":
+		// lam(k, T, body): the function k -> body as an array (fresh constant with a defining quantified axiom);
+		// memoised on the body and the heap versions it is evaluated in
+		if err := argN(3); err != nil {
+			return T{}, err
+		}
+		id, ok := x.Args[0].(*ast.Ident)
+		if !ok {
+			return T{}, fmt.Errorf("lam: first argument must be a variable")
+		}
+		kt, err := env.resolveType(x.Args[1])
+		if err != nil {
+			return T{}, err
+		}
+		ks := e.sortOf(kt)
+		e.nfresh++
+		vn := fmt.Sprintf("%s!q%d", id.Name, e.nfresh)
+		benv := env.bind(id.Name, T{vn, ks, kt})
+		benv.nbound = env.nbound + 1
+		body, err := benv.eval(x.Args[2])
+		if err != nil {
+			return T{}, err
+		}
+		key := "lam@" + strings.ReplaceAll(body.S, vn, "_") + "@" + body.Sort
+		if name, ok := e.lamMemo[key]; ok {
+			return T{name, "(Array " + ks + " " + body.Sort + ")", nil}, nil
+		}
+		name := e.fresh("lam", "(Array "+ks+" "+body.Sort+")")
+		e.assume("(forall ((" + vn + " " + ks + ")) (! (= (select " + name + " " + vn + ") " + body.S + ") :pattern ((select " + name + " " + vn + "))))")
+		e.lamMemo[key] = name
+		return T{name, "(Array " + ks + " " + body.Sort + ")", nil}, nil
+	case "visitedset":
+		lit, ok := x.Args[0].(*ast.BasicLit)
+		if !ok {
+			return T{}, fmt.Errorf("visitedset: argument must be a loop ordinal")
+		}
+		ord, _ := strconv.Atoi(lit.Value)
+		for hb, li := range f.loops {
+			if li.ord != ord {
+				continue
+			}
+			for _, ins := range hb.Instrs {
+				if nx, ok := ins.(*ssa.Next); ok {
+					if rg, ok := nx.Iter.(*ssa.Range); ok {
+						if mt, ok := rg.X.Type().Underlying().(*types.Map); ok {
+							ks := e.sortOf(mt.Key())
+							return T{e.H(env.cur, f.visHeap(rg), "(Array "+ks+" Bool)"), "(Array " + ks + " Bool)", nil}, nil
+						}
+					}
+				}
+			}
+		}
+		return T{}, fmt.Errorf("visitedset: loop %d is not a map iteration", ord)
+	case "domset":
+		m, err := env.eval(x.Args[0])
+		if err != nil {
+			return T{}, err
+		}
+		mt, ok := m.Go.Underlying().(*types.Map)
+		if !ok {
+			return T{}, fmt.Errorf("domset of non-map")
+		}
+		d, ds, _, _ := f.mapHeaps(mt)
+		return T{"(select " + e.H(env.cur, d, ds) + " " + m.S + ")", "(Array " + e.sortOf(mt.Key()) + " Bool)", nil}, nil
+	case "inslice":
+		// inslice(s, x): x occurs among the elements of slice s
+		if err := argN(2); err != nil {
+			return T{}, err
+		}
+		sv, err := env.eval(x.Args[0])
+		if err != nil {
+			return T{}, err
+		}
+		xv, err := env.eval(x.Args[1])
+		if err != nil {
+			return T{}, err
+		}
+		stp, ok := sv.Go.Underlying().(*types.Slice)
+		if !ok {
+			return T{}, fmt.Errorf("inslice: not a slice")
+		}
+		h, hs := f.elemHeap(stp.Elem())
+		if h == "" {
+			return T{}, fmt.Errorf("inslice over slice of structs")
+		}
+		es := e.sortOf(stp.Elem())
+		e.declFun("sliceset_"+sanitize(es), []string{"(Array Int " + es + ")", "Int", "Int"}, "(Array "+es+" Bool)")
+		e.slicesetAxioms(es)
+		return T{"(select (sliceset_" + sanitize(es) + " (select " + e.H(env.cur, h, hs) + " (sarr " + sv.S + ")) (soff " + sv.S + ") (slen " + sv.S + ")) " + xv.S + ")", "Bool", boolT}, nil
+	case "idsval":
+		// abstract value of a slice of identifiers (contents, not the array identity)
+		a, err := env.eval(x.Args[0])
+		if err != nil {
+			return T{}, err
+		}
+		if a.Sort != "Slice" {
+			return T{}, fmt.Errorf("idsval of %s", a.Sort)
+		}
+		e.declFun("idsval", []string{"(Array Int Int)", "Int", "Int"}, "Int")
+		h, hs := f.elemHeap(types.Typ[types.String])
+		return T{"(idsval (select " + e.H(env.cur, h, hs) + " (sarr " + a.S + ")) (soff " + a.S + ") (slen " + a.S + "))", "Int", nil}, nil
 	case "visited":
 		// visited(n, k): key k has already been produced by the map iteration of loop n
 		if err := argN(2); err != nil {
@@ -1918,4 +2030,18 @@ func (f *frame) mapLen(m T, st *State) string {
 	fn := "maplen_" + typeKey(mt)
 	f.e.declFun(fn, []string{"(Array " + f.e.sortOf(mt.Key()) + " Bool)"}, "Int")
 	return "(" + fn + " (select " + f.e.H(st, d, ds) + " " + m.S + "))"
+}
+
+// slicesetAxioms relates the abstract element set of a slice to its positions: every position's element is in the
+// set, and every member has a witness position (Skolem function slicepos_). Both hold of the real element set.
+func (e *Enc) slicesetAxioms(es string) {
+	ss := "sliceset_" + sanitize(es)
+	sp := "slicepos_" + sanitize(es)
+	key := "axiom:" + ss
+	if e.declared[key] {
+		return
+	}
+	e.declFun(sp, []string{"(Array Int " + es + ")", "Int", "Int", es}, "Int")
+	e.addDecl(key, "(assert (forall ((a (Array Int "+es+")) (o Int) (n Int) (p Int)) (! (=> (and (<= o p) (< p (+ o n))) (select ("+ss+" a o n) (select a p))) :pattern (("+ss+" a o n) (select a p)))))\n"+
+		"(assert (forall ((a (Array Int "+es+")) (o Int) (n Int) (x "+es+")) (! (=> (select ("+ss+" a o n) x) (and (<= o ("+sp+" a o n x)) (< ("+sp+" a o n x) (+ o n)) (= (select a ("+sp+" a o n x)) x))) :pattern ((select ("+ss+" a o n) x)))))")
 }
